@@ -143,6 +143,28 @@ def trips(td, scratch, rng):
         return TensorDict.from_consolidated(f)
     out["consolidate(file over a larger file)+from_consolidated"] = (lambda: cons_file_over(True), full)
     out["consolidate(file over a smaller file)+from_consolidated"] = (lambda: cons_file_over(False), full)
+    def cons_inplace(then_pickle):
+        # inplace=True: the tensordict itself becomes the consolidated one (done on a copy: the other trips go on using `td`)
+        # (a locked tensordict cannot be modified in place: the copy is unlocked, consolidated, then locked again)
+        mine = td.clone()
+        r = mine.consolidate(inplace=True, num_threads=rng.choice([0, 1, 4]), metadata=rng.random() < 0.5)
+        if td.is_locked:
+            r.lock_()
+            mine.lock_()
+        if not then_pickle and r is not mine:
+            # a lazy stack hands back a new object: the one it was called on must hold the same content all the same
+            d_ = first_diff(canon(td, **full), canon(mine, **full))
+            if d_ is not None:
+                raise AssertionError(f"the tensordict consolidate(inplace=True) was called on differs afterwards: {d_}")
+        return pickle.loads(pickle.dumps(r)) if then_pickle else r
+    out["consolidate(inplace)"] = (lambda: cons_inplace(False), full)
+    out["pickle(consolidated inplace)"] = (lambda: cons_inplace(True), full)
+
+    def cons_file_buffer():
+        f = scratch / f"b{rng.randint(0, 10**9)}.mmap"
+        td.consolidate(filename=f, use_buffer=True, num_threads=rng.choice([0, 1, 4]))
+        return TensorDict.from_consolidated(f)
+    out["consolidate(file, use_buffer)+from_consolidated"] = (cons_file_buffer, full)
     out["pickle(consolidated)"] = (lambda: pickle.loads(pickle.dumps(td.consolidate())), full)
     out["deepcopy(consolidated)"] = (lambda: copy.deepcopy(td.consolidate()), full)
 
@@ -155,6 +177,17 @@ def trips(td, scratch, rng):
         return dest
     # a state_dict is loaded *into* an existing structure: lock state is the destination's own
     out["state_dict+load_state_dict"] = (sd, dict(lock=False, names=True, device=True))
+
+    def sd_opts(flatten, assign):
+        s_ = td.state_dict(flatten=flatten)
+        dest = td.apply(lambda x: torch.zeros_like(x) if not x.is_nested else x, filter_empty=False)
+        if dest.is_locked:
+            dest = dest.unlock_()
+        r_ = dest.load_state_dict(s_, from_flatten=flatten, assign=assign)
+        return dest if r_ is None else r_
+    out["state_dict(flatten)+load_state_dict(from_flatten)"] = (lambda: sd_opts(True, False), dict(lock=False, names=True, device=True))
+    out["state_dict+load_state_dict(assign)"] = (lambda: sd_opts(False, True), dict(lock=False, names=True, device=True))
+    out["state_dict(flatten)+load_state_dict(from_flatten, assign)"] = (lambda: sd_opts(True, True), dict(lock=False, names=True, device=True))
     out["to_dict+from_dict"] = (lambda: TensorDict.from_dict(td.to_dict(), batch_size=td.batch_size, device=td.device,
                                                               names=list(td.names) if td._has_names() else None), dict(lock=False, names=True, device=True))
 
@@ -179,14 +212,14 @@ def applicable(name, kind, td):
         kind = "lazy"
     if name == "namedtuple" and kind in ("lazy", "tensorclass", "njt", "nontensor-stack"):
         return False
-    if name.startswith("consolidate(file over") and kind in ("tensorclass", "njt"):
+    if name.startswith(("consolidate(file over", "consolidate(file, use_buffer")) and kind in ("tensorclass", "njt"):
         return False
     if kind == "njt" and name not in ("pickle", "deepcopy", "consolidate(num_threads=0)", "consolidate(num_threads=1)", "consolidate(num_threads=4)",
-                                      "pickle(consolidated)", "consolidate(file)+from_consolidated"):
+                                      "pickle(consolidated)", "consolidate(file)+from_consolidated", "consolidate(inplace)", "pickle(consolidated inplace)"):
         return False
-    if kind == "lazy" and name in ("struct_array", "to_dict+from_dict", "state_dict+load_state_dict"):
+    if kind == "lazy" and (name in ("struct_array", "to_dict+from_dict") or name.startswith("state_dict")):
         return False
-    if kind == "tensorclass" and name in ("to_dict+from_dict", "state_dict+load_state_dict", "struct_array"):
+    if kind == "tensorclass" and (name in ("to_dict+from_dict", "struct_array") or name.startswith("state_dict")):
         return False
     return True
 
@@ -303,6 +336,92 @@ def run_pytree(run, drv):
                 "none" if c["device"] is None else str(c["device"]), [spec_of(s) for s in spec.children_specs]]
 
     from common import Raw, sx
+
+    # ---- state_dict / load_state_dict vs Model/C11StateDict.lean: the (ordered, nested) state dict, and the destination after
+    #      loading into: a zeroed copy; a copy with another key order; a copy without names; a copy with a leaf key renamed (refused)
+    def sd_shape(sd):
+        out = ["d", list(sd["__batch_size"]), "none" if sd["__device"] is None else str(sd["__device"])]
+        for k, v in sd.items():
+            if k in ("__batch_size", "__device"):
+                continue
+            out.append([k, sd_shape(v)] if isinstance(v, dict) else [k, ["l", int(v.reshape(-1)[0])]])
+        return out
+
+    def reorder(td, shuffle=True, names=True):
+        items = list(td.items())
+        if shuffle:
+            rng.shuffle(items)
+        return TensorDict({k: (reorder(v, shuffle, names) if isinstance(v, TensorDictBase) else v) for k, v in items}, batch_size=td.batch_size, device=td.device,
+                          names=list(td.names) if (names and td._has_names()) else None)
+
+    for it in range(60 if quick else 500):
+        b = rng.choice([[2], [3], [2, 2], []])
+        td = gen(0, b, rng.choice([None, "cpu"]), rng.choice([None, ["t", "u"][: len(b)]]) if b else None, [1])
+        if rng.random() < 0.3:
+            td.lock_()
+        variant = ["zeros", "reordered", "no-names", "renamed-leaf"][it % 4]
+        dest = td.apply(torch.zeros_like, filter_empty=False)
+        if dest.is_locked:
+            dest.unlock_()
+        if variant == "reordered":
+            dest = reorder(dest)
+        elif variant == "no-names":
+            dest = reorder(dest, shuffle=False, names=False)     # rebuilt without names at any level
+        elif variant == "renamed-leaf":
+            leafkeys = [k for k, v in dest.items() if not isinstance(v, TensorDictBase)]
+            if not leafkeys:
+                continue
+            dest.rename_key_(leafkeys[0], "zz")
+        dsx = td_sx(dest)
+        run.case(("statedict", it, variant))
+        run.count("statedict.variant", variant)
+        try:
+            sd = td.state_dict()
+            shape = sd_shape(sd)
+            try:
+                dest.load_state_dict(sd)
+                loaded = tree(dest)
+            except RuntimeError as e:
+                loaded = "none"
+            impl = [shape, loaded]
+        except Exception as e:  # noqa: BLE001
+            impl = ["err", f"{type(e).__name__}: {str(e)[:120]}"]
+        if variant != "renamed-leaf":
+            # the property on this input, model-free: the destination now holds the source's keys, nesting, batch sizes and values
+            def content(t_):
+                return [t_[1], sorted(([k_, content(v_)] if v_[0] == "n" else [k_, v_]) for k_, v_ in t_[5:])] if t_[0] == "n" else t_
+            ok_ = impl[0] != "err" and impl[1] != "none" and content(impl[1]) == content(tree(td))
+            if ok_:
+                run.oracle_ok("roundtrip:state_dict")
+            else:
+                run.oracle_fail("roundtrip:state_dict", {"td": td_sx(td)[:400], "dest": dsx[:400]},
+                                f"load_state_dict(state_dict()) into a {variant} copy does not reproduce the source: {str(impl[1])[:200]}", f"state_dict:nested:{variant}")
+        m = parse_sx(drv.ask(sx("c11.statedict", Raw(td_sx(td)), Raw(dsx))))
+        run.corr("state_dict(dict, load_state_dict into " + variant + ")", {"td": td_sx(td)[:400], "dest": dsx[:400]}, impl, [m[0], m[1]])
+
+    # ---- to_dict / from_dict vs Model/C11ToDict.lean: the plain nested dict and what from_dict rebuilds from it with the root's
+    #      batch size / names / device (also for a sub-tensordict with more batch dims: both sides give it the root's batch size)
+    def pd_shape(d):
+        return ["d"] + [[k, pd_shape(v)] if isinstance(v, dict) else [k, ["l", int(v.reshape(-1)[0])]] for k, v in d.items()]
+
+    for it in range(40 if quick else 400):
+        b = rng.choice([[2], [3], [2, 2]])
+        td = gen(0, b, rng.choice([None, "cpu"]), rng.choice([None, ["t", "u"][: len(b)]]), [1])
+        if it % 5 == 4:
+            td["deep"] = TensorDict({"w": torch.full(b + [2], 90)}, batch_size=b + [2], device=td.device,
+                                    names=(list(td.names) + ["z"]) if td._has_names() else None)
+        if rng.random() < 0.3:
+            td.lock_()
+        run.case(("todict", it))
+        try:
+            d = td.to_dict()
+            back = TensorDict.from_dict(d, batch_size=td.batch_size, device=td.device, names=list(td.names) if td._has_names() else None)
+            impl = [pd_shape(d), tree(back)]
+        except Exception as e:  # noqa: BLE001
+            impl = ["err", f"{type(e).__name__}: {str(e)[:120]}"]
+        m = parse_sx(drv.ask(sx("c11.todict", Raw(td_sx(td)))))
+        run.corr("to_dict(dict, from_dict)", td_sx(td)[:500], impl, [m[0], m[1]])
+
     for it in range(60 if quick else 600):
         b = rng.choice([[2], [3], [2, 2], []])
         td = gen(0, b, rng.choice([None, "cpu"]), rng.choice([None, ["t", "u"][: len(b)]]) if b else None, [0])
